@@ -164,7 +164,7 @@ impl OneHopPathView {
             .min()
             .unwrap_or(0);
 
-        base + exp_time_to_duration(min_exp).as_secs() as u32
+        base.saturating_add(exp_time_to_duration(min_exp).as_secs() as u32)
     }
 }
 impl Debug for OneHopPathView {
